@@ -34,6 +34,23 @@ func ParseRoot(sc *gen.Schema, opts thrift.Options) (*thrift.TypeDescriptor, *th
 	return f.Type(), svc, nil
 }
 
+// RootOf returns the descriptor of argument 1 of the given method of a parsed service.
+func RootOf(svc *thrift.ServiceDescriptor, method string) (*thrift.TypeDescriptor, error) {
+	fn, err := svc.LookupFunctionByMethod(method)
+	if err != nil {
+		return nil, err
+	}
+	req := fn.Request()
+	if req == nil || req.Struct() == nil {
+		return nil, fmt.Errorf("no request struct")
+	}
+	f := req.Struct().FieldById(1)
+	if f == nil {
+		return nil, fmt.Errorf("no request field 1")
+	}
+	return f.Type(), nil
+}
+
 func errCode(err error) string {
 	if err == nil {
 		return "nil"
